@@ -616,7 +616,8 @@ theorem GOk.no_backlog {s : St} (h : GOk s) (hc : canAccept s = true) (j : Nat) 
   have := h.free hone hcl hbusy j
   simp [hb] at this
 
-def fresh (cred : Cred) : Cli := { cred := cred, phase := .backlog, clientOpen := true }
+def fresh (cred : Cred) : Cli :=
+  { cred := cred, phase := .backlog, clientOpen := cred != .reset, inbox := if cred = .reset then [.fin] else [] }
 
 /-- a new client is taken from the listener by a free accept loop: threaded and forking servers -/
 theorem GOk.accept_dedicated {s : St} (h : GOk s) (k : Nat) (cred : Cred) (ids : List Nat)
@@ -653,7 +654,7 @@ theorem GOk.accept_pool {s : St} (h : GOk s) (k : Nat) (cred : Cred) (ids : List
 /-- one-shot: the accept thread itself serves the client it took -/
 theorem GOk.serve_oneshot {s X : St} (h : GOk s) (k : Nat) (cred : Cred)
     (hk : s.cfg.kind = .oneshot) (hcl : s.closedFlag = false) (hbusy : s.acceptBusy = none) (hcr : cred ≠ .silent)
-    (e1 : X.cfg = s.cfg) (e2 : X.closedFlag = false) (e3 : X.listening = s.listening) (e4 : X.active = s.active)
+    (hcr2 : cred ≠ .reset) (e1 : X.cfg = s.cfg) (e2 : X.closedFlag = false) (e3 : X.listening = s.listening) (e4 : X.active = s.active)
     (e5 : X.acceptAlive = s.acceptAlive) (e6 : X.acceptBusy = some k) (e7 : X.queue = []) (e8 : X.blocked = [])
     (e9 : X.poolUp = s.poolUp) (e10 : X.accepted = s.accepted + 1) (e11 : ∀ j, j ≠ k → X.cli j = s.cli j)
     (e12 : X.cli k = { fresh cred with srvFd := true, tracked := true, phase := .idle }) :
@@ -665,14 +666,15 @@ theorem GOk.serve_oneshot {s X : St} (h : GOk s) (k : Nat) (cred : Cred)
   obtain ⟨a1, a2, a3, a4, a5, a6, a7, a8, a9, a10, a11, a12⟩ := h
   have hph : ∀ j, j ≠ k → (serveClient X k).cli j = s.cli j := by
     intro j hj
-    simp [serveClient, built, runDedicated, applyConsumed, consume, fresh, dedFrames, set_cli_ne _ _ _ _ hj, e12, e11 j hj]
+    simp [serveClient, built, runDedicated, applyConsumed, consume, fresh, dedFrames, set_cli_ne _ _ _ _ hj, e12, e11 j hj,
+      hcr2]
   have hkk : COk s.cfg false ((serveClient X k).cli k) ∧ ((serveClient X k).cli k).phase = .idle ∧
       (serveClient X k).acceptBusy = some k ∧ (serveClient X k).closedFlag = false ∧ (serveClient X k).cfg = s.cfg ∧
       (serveClient X k).queue = [] ∧ (serveClient X k).blocked = [] ∧ (serveClient X k).accepted = 1 ∧
       (serveClient X k).listening = s.listening ∧ (serveClient X k).active = s.active ∧
       (serveClient X k).acceptAlive = s.acceptAlive ∧ (serveClient X k).poolUp = s.poolUp := by
     simp (config := {decide := true}) [serveClient, built, runDedicated, applyConsumed, consume, fresh, dedFrames, COk,
-      Shape, Served, hk, hcr, e1, e2, e3, e4, e5, e6, e7, e8, e9, e10, e12, hacc]
+      Shape, Served, hk, hcr, hcr2, e1, e2, e3, e4, e5, e6, e7, e8, e9, e10, e12, hacc]
   obtain ⟨k1, k2, k3, k4, k5, k6, k7, k8, k9, k10, k11, k12⟩ := hkk
   refine ⟨?_, k6, k7, ?_, ?_, ?_, ?_, ?_, ?_, ?_, ?_, ?_⟩
   · intro j; by_cases hj : j = k
@@ -702,14 +704,21 @@ theorem GOk.serve_oneshot {s X : St} (h : GOk s) (k : Nat) (cred : Cred)
 
 theorem GOk.accept_oneshot {s : St} (h : GOk s) (k : Nat) (cred : Cred) (ids : List Nat)
     (hk : s.cfg.kind = .oneshot) (hcl : s.closedFlag = false) (hbusy : s.acceptBusy = none)
-    (habs : (s.cli k).phase = .absent) (hcr : cred ≠ .silent) (hcr2 : cred ≠ .reset)
+    (habs : (s.cli k).phase = .absent) (hcr : cred ≠ .silent)
     (hbad : cred = .bad → s.cfg.auth = true) :
     GOk (acceptOne { (s.set k (fresh cred)) with ids := ids } k) := by
-  have hserved := fun X => h.serve_oneshot (X := X) k cred hk hcl hbusy hcr
   cases cred with
   | silent => exact absurd rfl hcr
-  | reset => exact absurd rfl hcr2
+  | reset =>
+    simp only [acceptOne, hk, authServe, set_cfg, set_cli_same, fresh, if_true, ↓reduceIte]
+    have hacc := (h.oacc hk).2 hcl hbusy
+    refine h.afterEnd_oneshot hk hcl k rfl (by simp [hcl]) (by simp [h.q]) (by simp [h.b])
+      (by simpa [hk] using (h.opn hcl).2.2.2.1) (by simp [hacc]) ?_ ?_ ?_
+    · intro j hj; simp [set_cli_ne _ _ _ _ hj]
+    · simp (config := {decide := true}) [COk, Shape, Gone, release]
+    · intro h1; simp [release] at h1
   | good =>
+    have hserved := fun X => h.serve_oneshot (X := X) k .good hk hcl hbusy hcr (by simp)
     cases hau : s.cfg.auth <;> simp only [acceptOne, hk, authServe, set_cfg, hau, if_true, if_false, set_cli_same, fresh,
         Bool.false_eq_true] <;>
       refine hserved _ rfl ?_ rfl rfl rfl rfl ?_ ?_ rfl ?_ ?_ ?_ <;>
@@ -730,7 +739,7 @@ theorem GOk.accept_oneshot {s : St} (h : GOk s) (k : Nat) (cred : Cred) (ids : L
 
 /-- the alphabet of C17: connect (with good or failing credentials), call, graceful close, abrupt close, server close -/
 def Op.c17 : Op → Bool
-  | .connect _ c => c == .good || c == .bad
+  | .connect _ c => c != .silent
   | .creds _ _ => false
   | .call _ _ => true
   | .raw _ _ => false
@@ -772,7 +781,7 @@ theorem GOk.add_backlog {s : St} (h : GOk s) (k : Nat) (cred : Cred) (ids : List
       · subst hjk; simp [fresh] at hj
       · exact a12 h1 i j (by simpa [set_cli_ne _ _ _ _ hik] using hi) (by simpa [set_cli_ne _ _ _ _ hjk] using hj)
 
-theorem GOk.connect {s : St} (h : GOk s) (k : Nat) (cred : Cred) (hcr : cred ≠ .silent) (hcr2 : cred ≠ .reset)
+theorem GOk.connect {s : St} (h : GOk s) (k : Nat) (cred : Cred) (hcr : cred ≠ .silent)
     {s' : St} {o : Obs}
     (hs : step s (.connect k cred) = .ok (s', o)) : GOk s' := by
   unfold step at hs
@@ -791,10 +800,7 @@ theorem GOk.connect {s : St} (h : GOk s) (k : Nat) (cred : Cred) (hcr : cred ≠
         cases hcf : s.closedFlag with
         | false => rfl
         | true => have := (h.closed hcf).1; simp [hl] at this
-      have hfr : ({ cred := cred, phase := .backlog, clientOpen := cred != .reset,
-                    inbox := if cred = .reset then [.fin] else [] } : Cli) = fresh cred := by
-        simp [fresh, hcr2]
-      rw [hfr]
+      change GOk (acceptAll (s.ids ++ [k]) { (s.set k (fresh cred)) with ids := s.ids ++ [k] })
       by_cases hca : canAccept s = true
       · -- the accept loop is free: only the new connection is waiting, it is taken at once
         have hbusy : s.acceptBusy = none := by simp [canAccept] at hca; exact hca.2
@@ -803,7 +809,7 @@ theorem GOk.connect {s : St} (h : GOk s) (k : Nat) (cred : Cred) (hcr : cred ≠
           | threaded => exact h.accept_dedicated k cred _ (Or.inl hkind) hcl habs hcr hbad
           | forking => exact h.accept_dedicated k cred _ (Or.inr hkind) hcl habs hcr hbad
           | pool => exact h.accept_pool k cred _ hkind hcl habs hcr hbad
-          | oneshot => exact h.accept_oneshot k cred _ hkind hcl hbusy habs hcr hcr2 hbad
+          | oneshot => exact h.accept_oneshot k cred _ hkind hcl hbusy habs hcr hbad
         rw [acceptAll_single (s.ids ++ [k]) _ k (by simp) (by exact hca) (by simp [fresh])
           (by intro j hj; simpa [set_cli_ne _ _ _ _ hj] using h.no_backlog hca j)
           (fun h1 j => hres.no_backlog h1 j)]
@@ -829,8 +835,7 @@ theorem GOk.step {s s' : St} {o : Obs} (h : GOk s) (op : Op) (hop : op.c17 = tru
     (hs : Srv.step s op = .ok (s', o)) : GOk s' := by
   cases op with
   | connect k cred =>
-    have : cred = .good ∨ cred = .bad := by simpa [Op.c17] using hop
-    exact h.connect k cred (by rcases this with h | h <;> simp [h]) (by rcases this with h | h <;> simp [h]) hs
+    exact h.connect k cred (by simpa [Op.c17] using hop) hs
   | raw k items => simp [Op.c17] at hop
   | creds k c => simp [Op.c17] at hop
   | call k r =>
